@@ -206,4 +206,21 @@ var table = []Control{
 	{Name: "lex4-optvalue-text-restricted", Rule: "LEX-4", File: fLexer,
 		Old: "\t\t\t\tclosed = usage[pos] == '>'\n\t\t\t\tif closed {\n\t\t\t\t\tbreak\n\t\t\t\t}\n",
 		New: "\t\t\t\tclosed = usage[pos] == '>'\n\t\t\t\tif closed || usage[pos] == ' ' {\n\t\t\t\t\tbreak\n\t\t\t\t}\n"},
+	// ---- obligations found missing by the mutation sweep (tools/mutation.py)
+	{Name: "cmd1-rejected-returns-nil", Rule: "CMD-1", File: fCmds,
+		Old: "\tc.PrintHelp()\n\tc.onError(err)\n\treturn err\n\n}", New: "\tc.PrintHelp()\n\tc.onError(err)\n\treturn nil\n\n}"},
+	{Name: "cmd2-exiter-does-not-exit", Rule: "CMD-2", File: fCli,
+		Old: "var exiter = func(code int) {\n\tos.Exit(code)\n}", New: "var exiter = func(code int) {\n}"},
+	{Name: "help1-hidden-command-ends-listing", Rule: "HELP-1", File: fCmds,
+		Old: "\t\tif c.Hidden {\n\t\t\tcontinue\n\t\t}\n\n\t\tcommands = append", New: "\t\tif c.Hidden {\n\t\t\tbreak\n\t\t}\n\n\t\tcommands = append"},
+	{Name: "mat7-foreign-option-ends-scan", Rule: "MAT-7", File: fOption,
+		Old: "\tcase len(kv) == 2:\n\t\tif opt != o.theOne {\n\t\t\treturn false, 1, args\n\t\t}", New: "\tcase len(kv) == 2:\n\t\tif opt != o.theOne {\n\t\t\treturn false, 0, args\n\t\t}"},
+	{Name: "mat6-excluded-option-ends-group", Rule: "MAT-6", File: fOptions,
+		Old: "\t\tif _, exclude := c.ExcludedOpts[o]; exclude {\n\t\t\tcontinue\n\t\t}", New: "\t\tif _, exclude := c.ExcludedOpts[o]; exclude {\n\t\t\tbreak\n\t\t}"},
+	{Name: "lex4-optvalue-without-angle", Rule: "LEX-4", File: fLexer,
+		Old: "if pos >= eof || usage[pos] != '<' {", New: "if pos >= eof {"},
+	{Name: "mat7-rebuilt-vector-loses-prefix", Rule: "MAT-7", File: fStrings,
+		Old: "\tres := make([]string, len(arr))\n\tcopy(res, arr[:idx])\n", New: "\tres := make([]string, len(arr))\n"},
+	{Name: "mat7-wrong-token-dropped", Rule: "MAT-7", File: fOption,
+		Old: "return true, 1, removeStringAt(idx+1, nargs)", New: "return true, 1, removeStringAt(idx, nargs)"},
 }
